@@ -9,14 +9,17 @@
        bits of z and unpack of those bits gives z back, allocating nothing and emitting nothing (C16_pack_unpack_intmod;
        Proofs/PackCore.v, which also proves the monad law of [run]).  (Modulus 1, a zero-width field,
        used to raise IndexError: found while proving this theorem, fixed in /repo by 95c6e1c.)
-   Not proved in Coq: structured schemas (PackList / PackRepeat offsets) and secret inputs; they are in the model
+     - packing of a SECRET integer (Proofs/PackValues.v): pack is the decomposition into bitlen(m-1) boolean witnesses, unpack their
+       recomposition (a pure linear combination) asserted below m; whenever the round trip does not raise, the unpacked object
+       carries the packed value (C16_pack_unpack_secret; with the adversarial theorems above: the bits are forced).
+   Not proved in Coq: structured schemas (PackList / PackRepeat offsets); they are in the model
    (Prog.pack_v / unpack_v), tied to the code by the correspondence, and decided by round-trip runs over generated schemas
    and by the witness-space search at widths different from the global bitlength. *)
 From Coq Require Import ZArith List Bool Lia Znumtheory.
 From PySnark.Base Require Import FieldZ Bits.
 From PySnark.Model Require Import Lc Sym Good Gadgets.
 From PySnark.Model Require Import Api Prog.
-From PySnark.Proofs Require Import Meta Sound Wp WpBase GadgetsOK Values Adv AdvGadgets PackCore.
+From PySnark.Proofs Require Import Meta Sound Wp WpBase GadgetsOK Values Adv AdvGadgets PackCore PackValues.
 Import ListNotations.
 Open Scope Z_scope.
 
@@ -54,7 +57,18 @@ Theorem C16_pack_unpack_intmod : forall (p : Z) (c : cfg) m z (s : @Gadgets.gst 
   run (unpack_v c (KIntMod m) (py_bits z (bitlen_of m)) 0) s = (inl (PInt z), s, []).
 Proof. intros p c. exact (pack_unpack_intmod c). Qed.
 
+(* the round trip of a secret integer through PackIntMod(m): for every modulus with a non-empty field, every secret value, every
+   generator state satisfying the invariant.  [wp ... Q] for every Q implied by the value fact = every run of the round trip that
+   does not raise ends with that fact (Wp.wp_sound). *)
+Theorem C16_pack_unpack_secret : forall (p : Z) ins ig (c : cfg) m (x : Sym.slc p) (s : @Gadgets.gst p) sg (Q : Api.pyval p -> @Gadgets.gst p -> store -> Prop),
+  WpBase.Inv ins ig s sg -> (0 < bitlen_of m)%nat ->
+  (forall q s' sg', WpBase.Inv ins ig s' sg' -> ext sg sg' ->
+     Sym.veval p ins ig sg' (sval q) = Sym.veval p ins ig sg (sval x) mod 2 ^ Z.of_nat (bitlen_of m) -> Q (PLC q) s' sg') ->
+  Wp.wp ins ig (pk <- pack_v (KIntMod m) (PLC x) ;; match pk with PList bits => unpack_v c (KIntMod m) bits 0 | _ => static_raise TypeError end) s sg Q.
+Proof. intros p ins ig c m x s sg Q. exact (pack_unpack_secret ins ig c m x s sg Q). Qed.
+
 Print Assumptions C16_pack_unpack_intmod.
+Print Assumptions C16_pack_unpack_secret.
 Print Assumptions C16_bits_recompose.
 Print Assumptions C16_honest_bits.
 Print Assumptions C16_width_enforced.
